@@ -47,6 +47,7 @@ func runC05(ctx *core.Ctx) {
 	lookupGates(ctx, "G")
 	c12PutOrder(ctx, "G7")
 	reuseAfterRehash(ctx, "G8")
+	putAlwaysCopies(ctx, "G12")
 	truncGuard(ctx, "G9", true)
 	expectedIDReadOnly(ctx, "G10")
 	indexNilMeansWritten(ctx, "G11")
